@@ -137,7 +137,7 @@ func runSequence(r *vf.Run, work string, idx int) {
 	} else {
 		r.Count("sequences_sync_remove", 1)
 	}
-	g := &snapdrv.Gen{Rng: rng, P: snapdrv.Profile{Names: rng.Range(4, 10), Reopen: true, Collisions: true, EmptyTarget: true, RestoreFails: true, InjectAtMount: true}}
+	g := &snapdrv.Gen{Rng: rng, P: snapdrv.Profile{Names: rng.Range(4, 10), Reopen: true, Collisions: true, EmptyTarget: true, RestoreFails: true, InjectAtMount: true, PlantFaults: true}}
 	for i := 0; i < length && d.Aborted == "" && nviol < 5; i++ {
 		var mounted []string
 		for mp := range d.FS.Live() {
